@@ -4,19 +4,20 @@
 #include "node_common.h"
 
 enum { M_INIT = 1, M_PREOP = 2, M_OP = 3, M_STOP = 4 };
-static struct { uint8_t mode; uint16_t period, rem; int16_t apptmr; } M;
+static struct { uint8_t mode; uint16_t period, rem; int16_t apptmr; uint8_t svc, due; } M;     /* svc: a tick was served and waits for its processing step (cfg 8), due: a heartbeat elapsed in it */
 static uint8_t NID; static uint32_t TPM;   /* ticks per ms */
 
 enum { E_TICK, E_SDO_HB0, E_SDO_HB1, E_SDO_HB2, E_SDO_HB3, E_API_HB0, E_API_HB2, E_API_HB3, E_NMT_START, E_NMT_STOP, E_NMT_PREOP, E_NMT_RESETCOM, E_NMT_RESETNODE,
-       E_EVT0, E_EVT2, E_INH0, E_INH2, E_TYPE254, E_SYNCID_ON, E_SYNCID_OFF, E_CYCLE0, E_CYCLE2, E_TRIG, E_WRITE_ASYNC, E_APP_CREATE, E_APP_DELETE, E_HBCONS_FRAME, E_HBC_WRITE, E_PDO_OFF, E_PDO_ON, E_SDO_HB_SHORT, E_API_HB_SHORT, E_NODE_START, E_N };
+       E_EVT0, E_EVT2, E_INH0, E_INH2, E_TYPE254, E_SYNCID_ON, E_SYNCID_OFF, E_CYCLE0, E_CYCLE2, E_TRIG, E_WRITE_ASYNC, E_APP_CREATE, E_APP_DELETE, E_HBCONS_FRAME, E_HBC_WRITE, E_PDO_OFF, E_PDO_ON, E_SDO_HB_SHORT, E_API_HB_SHORT, E_NODE_START, E_TICK_SVC, E_TICK_PROC, E_N };
 static const char *const EN[] = { "tick", "SDO 1017h=0", "SDO 1017h=1", "SDO 1017h=2", "SDO 1017h=3", "API 1017h=0", "API 1017h=2", "API 1017h=3", "NMT start", "NMT stop", "NMT pre-op", "NMT reset com", "NMT reset node",
        "SDO 1800h:5=0", "SDO 1800h:5=2", "SDO 1800h:3=0", "SDO 1800h:3=20", "SDO 1800h:2=254", "SDO 1005h producer on", "SDO 1005h producer off", "SDO 1006h=0", "SDO 1006h=2000us", "COTPdoTrigPdo(0)", "write async object",
        "app COTmrCreate", "app COTmrDelete", "heartbeat of monitored node", "SDO 1016h:1 rewrite", "SDO 1800h:1 invalid", "SDO 1800h:1 valid",
-       "SDO 1017h: one byte by segmented download (refused)", "API CODictWrBuffer(1017h, 1 byte) (refused)", "CONodeStart" };
+       "SDO 1017h: one byte by segmented download (refused)", "API CODictWrBuffer(1017h, 1 byte) (refused)", "CONodeStart", "tick: interrupt part only (COTmrService)", "tick: processing step (COTmrProcess)" };
 
 static void app_cb(void *p) { (void)p; w_cb(CB_USER, 1, 0, 0); }
-static const char *cfg_name(int c) { static const char *const n[] = { "1kHz hb=2ms", "1kHz hb=0", "100Hz hb=20ms", "1kHz hb=2ms node 10 OPERATIONAL", "1kHz hb=0, TPDO event time 1 ms, OPERATIONAL", "1kHz hb=2ms, timer pool of 3 (exactly sized)", "1kHz hb=0, node initialised but not started", "1kHz hb=2ms, node initialised but not started" }; return n[c]; }
+static const char *cfg_name(int c) { static const char *const n[] = { "1kHz hb=2ms", "1kHz hb=0", "100Hz hb=20ms", "1kHz hb=2ms node 10 OPERATIONAL", "1kHz hb=0, TPDO event time 1 ms, OPERATIONAL", "1kHz hb=2ms, timer pool of 3 (exactly sized)", "1kHz hb=0, node initialised but not started", "1kHz hb=2ms, node initialised but not started", "1kHz hb=2ms, TPDO event time 2 ms, OPERATIONAL, tick split into interrupt part and processing step" }; return n[c]; }
 
+static int SPLIT;
 static int build(int cfg)
 {
     nc_defaults();
@@ -25,7 +26,7 @@ static int build(int cfg)
     NC.hbprod = 1; NC.hb_time = (uint16_t)((cfg == 1 || cfg == 4 || cfg == 6 ? 0 : 2) * TPM);
     /* cfg 6, 7: the application writes 1017h between CONodeInit and CONodeStart: nothing is demanded of the frames before boot-up, afterwards the schedule is
      * last write + k * period like everywhere else */
-    NC.no_start = (cfg >= 6);
+    NC.no_start = (cfg == 6 || cfg == 7);
     NC.n_hbc = 1; NC.hbc[0].node = 9; NC.hbc[0].time = (uint16_t)(2 * TPM);
     NC.sync = 1; NC.sync_id = 0x80; NC.sync_cycle = 0;
     NC.n_tpdo = 1; NC.tpdo[0].present = 1; NC.tpdo[0].cobid = 0x40000180u + NID; NC.tpdo[0].type = 254; NC.tpdo[0].nmap = 1; NC.tpdo[0].map[0] = NC_MAP(0x2100, 0, 8);
@@ -35,13 +36,17 @@ static int build(int cfg)
     /* cfg 5: a pool of three timers - producer, consumer and one more: the other timer users compete for the last one, and a re-write of the
      * running producer must still succeed (it needs no additional timer) */
     if (cfg == 5) NC.tmr_n = 3;
-    NC.operational = (cfg == 3 || cfg == 4);
+    /* cfg 8: the tick is split into its interrupt part and its processing step, every other event may fall between the two; heartbeat and TPDO event timer
+     * (2 ms each) fall due on the same ticks */
+    if (cfg == 8) NC.tpdo[0].event = 2;
+    NC.operational = (cfg == 3 || cfg == 4 || cfg == 8);
     nc_build();
     (void)CONodeGetErr(&Node);
     memset(&M, 0, sizeof M);
     M.mode = NC.no_start ? M_INIT : NC.operational ? M_OP : M_PREOP; M.period = (uint16_t)(cfg == 1 || cfg == 4 || cfg == 6 ? 0 : 2); M.rem = M.period; M.apptmr = -1;
     W_REG(M);
-    return cfg >= 6 ? E_N : E_N - 1;
+    SPLIT = (cfg == 8);
+    return cfg == 8 ? E_N : cfg >= 6 ? E_N - 2 : E_N - 3;      /* cfg 8: "tick" and "CONodeStart" stay disabled */
 }
 static const char *ev_name(int e) { return EN[e]; }
 
@@ -52,17 +57,21 @@ static void hb_write_result(uint32_t abort_or_err, uint16_t v)
     /* starting a stopped producer needs a timer: with none free the write may be refused and changes nothing; every other write must succeed */
     if (abort_or_err != 0 && M.period == 0 && v != 0 && free_before == 0) return;
     if (abort_or_err != 0) { mc_fail("hb-write-refused", "write of %u to 1017h refused (%08X) with %d free timer(s), old period %u", v, abort_or_err, free_before, M.period); return; }
-    M.period = v; M.rem = v;
+    M.period = v; M.rem = v; M.due = 0;      /* the period restarts with the write: a heartbeat that elapsed but was not processed yet belongs to the old schedule */
 }
 
 static int step(int e)
 {
     static const uint8_t CODE[] = { 0, 0, 127, 5, 4 };
     int expect = 0; uint32_t r;
+    if (SPLIT && (e == E_TICK || (e == E_TICK_SVC && M.svc) || (e == E_TICK_PROC && !M.svc))) return MC_SKIP;      /* one processing step per served tick (deferred processing is C08's subject) */
+    if (!SPLIT && (e == E_TICK_SVC || e == E_TICK_PROC)) return MC_SKIP;
     /* before boot-up there is no SDO and no NMT service; frames a due producer timer sends or does not send in INIT are not judged */
     if (M.mode == M_INIT && ((e >= E_SDO_HB0 && e <= E_SDO_HB3) || e == E_SDO_HB_SHORT || (e >= E_NMT_START && e <= E_CYCLE2) || e == E_HBC_WRITE || e == E_PDO_OFF || e == E_PDO_ON || e == E_HBCONS_FRAME)) return MC_SKIP;
     switch (e) {
     case E_TICK: if (M.period) { M.rem--; if (M.rem == 0) { expect = 1; M.rem = M.period; } } w_tick(&Node, 1); break;
+    case E_TICK_SVC: if (M.period) { M.rem--; if (M.rem == 0) { M.due = 1; M.rem = M.period; } } M.svc = 1; w_tick(&Node, 0); break;
+    case E_TICK_PROC: expect = M.due; M.due = 0; M.svc = 0; COTmrProcess(&Node.Tmr); break;
     case E_SDO_HB0: case E_SDO_HB1: case E_SDO_HB2: case E_SDO_HB3: {
         uint16_t v = (uint16_t)(e - E_SDO_HB0);
         if (M.mode == M_STOP) return MC_SKIP;
@@ -88,7 +97,7 @@ static int step(int e)
     case E_NMT_START: M.mode = M_OP; nc_nmt(1, NID); break;
     case E_NMT_STOP:  M.mode = M_STOP; nc_nmt(2, 0); break;
     case E_NMT_PREOP: M.mode = M_PREOP; nc_nmt(128, NID); break;
-    case E_NMT_RESETCOM: case E_NMT_RESETNODE: M.mode = M_PREOP; M.rem = M.period; M.period = M.period; nc_nmt(e == E_NMT_RESETCOM ? 130 : 129, NID); break;
+    case E_NMT_RESETCOM: case E_NMT_RESETNODE: M.mode = M_PREOP; M.rem = M.period; M.period = M.period; M.due = 0; nc_nmt(e == E_NMT_RESETCOM ? 130 : 129, NID); break;
     case E_EVT0: case E_EVT2: if (M.mode == M_STOP) return MC_SKIP; (void)nc_sdo_write(0x1800, 5, (e == E_EVT2 ? 2 : 0) * TPM, 2); break;
     case E_INH0: case E_INH2: if (M.mode == M_STOP) return MC_SKIP; (void)nc_sdo_write(0x1800, 3, (e == E_INH2 ? 20 : 0) * TPM, 2); break;
     case E_TYPE254: if (M.mode == M_STOP) return MC_SKIP; (void)nc_sdo_write(0x1800, 2, 254, 1); break;
@@ -124,5 +133,5 @@ static int step(int e)
     return MC_OK;
 }
 
-static const mc_harness H = { "C10", "c10", 8, cfg_name, build, ev_name, step, 6, 8 };
+static const mc_harness H = { "C10", "c10", 9, cfg_name, build, ev_name, step, 6, 8 };
 int main(int argc, char **argv) { return mc_main(argc, argv, &H); }
